@@ -368,6 +368,15 @@ class Ctx:
         return run_proc([self.paths["slicec"]] + list(args), cwd=cwd, env=env, timeout=timeout)
 
 
+def link_tool(src, dst):
+    """Places a helper binary (the fake generator) under another name. A hard link (or a copy) rather than a symbolic link: the
+    name keeps pointing at the same file even if a concurrent build of the harness replaces the binary in the target directory."""
+    try:
+        os.link(src, dst)
+    except OSError:
+        shutil.copy2(src, dst)
+
+
 def scratch_root():
     d = os.environ.get("VERIF_SCRATCH") or os.path.join(tempfile.gettempdir(), "verif-scratch")
     os.makedirs(d, exist_ok=True)
